@@ -236,6 +236,10 @@ M = [
 """, """                            response = self.getTransaction(tid=0)
                         else:
 """),
+ ('c07_ascii_nonhex_accepted_again', 'C07', 'pymodbus/framer/ascii_framer.py',
+  """            if len(body) % 2 or body.strip(b'0123456789ABCDEFabcdef'):
+""", """            if len(body) % 2:
+"""),
 ]
 
 
